@@ -10,9 +10,11 @@ package main
 // code is executed: the interpreter folds go/constant values over SSA.
 
 import (
+	"fmt"
 	"go/constant"
 	"go/token"
 	"go/types"
+	"os"
 
 	"golang.org/x/tools/go/ssa"
 )
@@ -248,6 +250,9 @@ func (w *feWalker) walk(st *feState) {
 				over = fr.visits[b] > 2
 			}
 			if over {
+				if os.Getenv("VERIF_DEBUG_CUT") != "" {
+					fmt.Fprintf(os.Stderr, "CUT in %s block %d (frames %d)\n", fr.fn.Name(), b.Index, len(st.frames))
+				}
 				w.paths++
 				w.Ends = append(w.Ends, &feEnd{State: st, Cut: true})
 				return
